@@ -17,7 +17,7 @@
 (* to a recorded execution of the real library.  dv is the set of enabled  *)
 (* named deviations (known findings); {} is the specification proper.      *)
 (***************************************************************************)
-EXTENDS Plan, Rename
+EXTENDS MultiAgent, Rename
 
 CONSTANT Eps            \* the comparison tolerance, a rational
 
